@@ -57,6 +57,23 @@ def cases(tier):
         if h in seen: continue
         seen.add(h)
         out.append(dict(d=d, dev=dev))
+    # every scale slot (and all slots together) x every method x M x DAE: the sub-product the deviation bound would only reach at k=4
+    slots = [("sx", 3), ("sx", "elem"), ("su", 0.25), ("svg", 3), ("svc", 0.25), ("sz", 3), ("sder", 3), ("sder", "elem"), ("salg", 0.25), ("scon", 3), ("scon", 0.25)]
+    for meth in DIMS["method"]:
+        for M in (1, 2):
+            for al in (False, True):
+                for sl in slots + ["all"]:
+                    a = {n: DIMS[n][0] for n in DIMS}
+                    a.update(method=meth, M=M, alg=al, N=3 if M == 2 else 2)
+                    if sl == "all":
+                        a.update(sx="elem", su=0.25, svg=3, svc=0.25, sz=3, sder="elem", salg=0.25, scon=3)
+                    else:
+                        a[sl[0]] = sl[1]
+                    d = finish(a)
+                    h = explore.sha(d)
+                    if h in seen: continue
+                    seen.add(h)
+                    out.append(dict(d=d, dev=["method", "M", "alg", str(sl)]))
     return out
 
 
